@@ -5,5 +5,5 @@ CONSTANTS Nib = {0, 1}
           Pad = 1
           MaxKeys = 2
           EmitRows = TRUE
-INVARIANTS SoundInv CompleteInv ExactInv ProveVerifyInv EmptyInv Emit
+INVARIANTS CharacterInv MoreInv ProofInv NoProofInv AlgInv Emit
 CHECK_DEADLOCK FALSE
